@@ -210,6 +210,38 @@ def pdu_task(ck, task):
         check("file_data := same symbol after a pack", ("metadata", [("file_data", lambda it, env: sym("file_data", ty="bytes"))]), "metadata", extra={"offset": 64})
 
 
+# setters whose recomputation can refuse the new value (the length no longer fits its field): (class, setter)
+REFUSING_SETTERS = (("ecss.tc.PusTc", "app_data"), ("ecss.tm.PusTm", "tm_data"),
+                    ("cfdp.pdu.file_data.FileDataPdu", "file_data"), ("cfdp.pdu.file_data.FileDataPdu", "segment_metadata"),
+                    ("cfdp.pdu.finished.FinishedPdu", "condition_code"), ("cfdp.pdu.finished.FinishedPdu", "file_store_responses"),
+                    ("cfdp.pdu.finished.FinishedPdu", "fault_location"), ("cfdp.pdu.metadata.MetadataPdu", "options"),
+                    ("cfdp.pdu.metadata.MetadataPdu", "source_file_name"), ("cfdp.pdu.metadata.MetadataPdu", "dest_file_name"),
+                    ("cfdp.pdu.nak.NakPdu", "segment_requests"), ("cfdp.pdu.nak.NakPdu", "file_flag"))
+
+
+def refused_setters(ck, P):
+    """a sequence of setter calls may contain refused ones (ValueError: the new length does not fit its field); after
+    such a call the object must be what it was, otherwise its reported length and its packed octets disagree"""
+    for cls, name in REFUSING_SETTERS:
+        c = P.cls(cls)
+        st = c.setters.get(name)
+        fn = f"{c.name}.{name} setter"
+        if st is None:
+            ck.unknown("G-REFUSE", fn, "setter analysed", "setter not found")
+            continue
+        it = new_interp(P); env = Env()
+        try:
+            obj = it.new_object(c.qual, symbolic=True, root="self", path="self")
+            first = it.next_oid()
+            it.call_func(st, [obj, sym("value")], {}, env)
+        except Unsupported as e:
+            ck.unknown("G-REFUSE", fn, "setter analysed", str(e))
+            continue
+        n = R.check_refusal_atomic(ck, it, fn, fresh_from=first)
+        ck.verdict("G-REFUSE", fn, "the setter has a refusing path (its recomputation validates the new length)", [] if n else ["no feasible explicit raise found"],
+                   f"{n} refusing paths", nontrivial=False)
+
+
 def run(ck):
     from ..report import run_parallel
     P = Program(ck.repo)
@@ -224,7 +256,7 @@ def run(ck):
         "PduConfig object or the ID objects it holds. Repeatability: pack() twice yields identical terms and equality does not read "
         "the caches.")
     for r, t in (("W-PACK", "pack() after setters == pack() of a fresh object with the final values; pack twice identical"), ("L-LEN", "reported length likewise"),
-                 ("A-ALIAS", "no store reaches an object owned by the caller"), ("Q-EQ", "equality unaffected by packing")):
+                 ("A-ALIAS", "no store reaches an object owned by the caller"), ("G-REFUSE", "a setter that refuses its value leaves nothing stored"), ("Q-EQ", "equality unaffected by packing")):
         ck.rule(r, t)
     ck.trusted += ["store log of the abstract interpreter (every attribute store goes through setattr)"]
     ck.assumptions += ["setter sequences of length one or two per field; longer sequences follow because every setter ends in the same recomputation from current field values"]
@@ -254,6 +286,8 @@ def run(ck):
         call_method(it_c, env_c, c1, "pack")
         e_after = it_c.compare("==", c1, c2, env_c, None)
         ck.verdict("Q-EQ", f"{short}.__eq__", "equality is the same before and after pack() (the CRC cache is not compared)", [] if e_before == e_after else [f"{show(e_after)[:80]}"], "identical terms")
+    # ---------------------------------------------------------------- refused mutations leave the object unchanged
+    refused_setters(ck, P)
     # ---------------------------------------------------------------- USLP
     U = "uslp.frame"
     from .c17 import mk_header
